@@ -134,7 +134,7 @@ func (s *senderWorld) onProverRequest(in *proverv1.GenerateAggchainProofRequest,
 	for i, ibe := range in.ImportedBridgeExits {
 		cl := cs[i]
 		gi := new(big.Int).SetBytes(ibe.GlobalIndex.GetValue())
-		if gi.Cmp(cl.GlobalIndex) != 0 {
+		if gi.Cmp(canonGI(cl.GlobalIndex)) != 0 {
 			s.fail("global-index", "c19/prover-global-index", "imported exit %d of the prover request carries global index %s, the claim event has %s", i, gi, cl.GlobalIndex)
 			return
 		}
